@@ -22,7 +22,7 @@ RULE = ('(1) contract evaluation: every labelled DAG on <=3 (quick) / <=4 '
 ASSUMPTIONS = ['layers have distinct qualified names (bare names may repeat across modules)',
                'class-layer DAGs are restricted to those with a consistent '
                'C3 MRO (others cannot be written in Python)']
-FLOORS = {'resume_runs': 15, 'order_calls': 20000, 'perm_groups': 3000, 'nontrivial_groups': 1000,
+FLOORS = {'resume_runs': 15, 'dead_child_runs': 10, 'subprocess_layers': 80, 'order_calls': 20000, 'perm_groups': 3000, 'nontrivial_groups': 1000,
           'cli_runs': 100, 'variant_pairs': 80, 'monitor_evals': 20000}
 BATCH_TIMEOUT = 600
 
@@ -368,6 +368,16 @@ def run_runs(case):
                 extra = ['--list-tests']
             if mode == 'par':
                 opts['processes'] = rng.randint(2, 4)
+            crashed = None
+            if mode in ('par', 'resume') and rng.random() < 0.4:
+                # one of the layer subprocesses dies in the middle of a
+                # test: the layer has been run all the same - once
+                tids = [t[0] for t in vworld.iter_tests(spec)]
+                crashed = rng.choice(tids)
+                plan = dict(plan or {})
+                plan['crash'] = {'at': 'test.body:' + crashed,
+                                 'how': rng.choice(['exit3', 'SIGKILL',
+                                                    'exit0', 'SIGSEGV'])}
             w = common.run_world(spec, plan, opts, extra_argv=extra,
                                  mode='cli', root=root,
                                  env_extra={'PYTHONHASHSEED': hs})
@@ -386,6 +396,19 @@ def run_runs(case):
                    'layers': [(ls['name'], ls['bases']) for ls in layers]}
             if len(set(hdr)) != len(hdr):
                 V('layer-run-more-than-once', 'order-layer-twice', **ctx)
+            # ... and, whatever becomes of them, one subprocess per layer
+            # that is run in a subprocess, one process per layer set-up
+            spawned = [e.get('layer') for e in w.events if e['k'] == 'spawn']
+            if spawned:
+                counters['subprocess_layers'] = counters.get(
+                    'subprocess_layers', 0) + len(set(spawned))
+            if crashed and any(e['k'] == 'crash' for e in w.events):
+                counters['dead_child_runs'] = counters.get(
+                    'dead_child_runs', 0) + 1
+            for ln in sorted(set(spawned), key=str):
+                if spawned.count(ln) != 1:
+                    V('layer-run-more-than-once', 'order-layer-spawned-twice',
+                      layer=ln, spawned=spawned, crashed_in=crashed, **ctx)
             want = {vworld.full_layer_name(spec, k) for k in owners}
             if set(hdr) != want:
                 V('layers-run-differ', 'order-layer-set', want=sorted(want),
